@@ -259,6 +259,33 @@ def preprocess_order(rep: C.Report) -> None:
         ob.detail += f"{type(e).__name__}: {e}"
 
 
+def fixpoint_loop(fn) -> bool:
+    """the placeholder substitution of _finalize_expand sits in a `while` that only ends when a pass changes nothing"""
+    ok = False
+    for loop in [n for n in ast.walk(fn) if isinstance(n, ast.While)]:
+        has_sub = any(isinstance(c, ast.Call) and isinstance(c.func, ast.Attribute) and c.func.attr == "sub" for c in ast.walk(loop))
+        if not has_sub:
+            continue
+        exits = [n for n in ast.walk(loop) if isinstance(n, (ast.Break, ast.Return))]
+        # every exit must sit under an `if <a> == <b>` (before/after comparison); an unconditional `while True`
+        guarded = True
+        for ex in exits:
+            parent_if = [i for i in ast.walk(loop) if isinstance(i, ast.If) and any(x is ex for x in ast.walk(i))]
+            if not any(isinstance(i.test, ast.Compare) and isinstance(i.test.ops[0], ast.Eq) for i in parent_if):
+                guarded = False
+        is_forever = isinstance(loop.test, ast.Constant) and loop.test.value is True
+        cmp_test = isinstance(loop.test, ast.Compare) and isinstance(loop.test.ops[0], (ast.NotEq, ast.IsNot))
+        if (is_forever and exits and guarded) or cmp_test:
+            ok = True
+    return ok
+
+
+def finalize_fn():
+    tree = ast.parse(open(os.path.join(C.SRC, "core.py")).read())
+    fns = [f for q, f in AP.functions(tree) if q[-1] == "_finalize_expand"]
+    return fns[0] if len(fns) == 1 else None
+
+
 def finalize_fixpoint(rep: C.Report) -> None:
     """Ob7: _finalize_expand substitutes placeholders inside a loop that only ends when a pass changes nothing (unexpanded
     constructs put their arguments back verbatim, so each nesting level needs one more pass).  AST/E3 fact: the substitution call
@@ -271,23 +298,7 @@ def finalize_fixpoint(rep: C.Report) -> None:
         if len(fns) != 1:
             ob.verdict, ob.detail = C.NOT_ENCODABLE, "_finalize_expand not found"
             return
-        fn = fns[0]
-        ok = False
-        for loop in [n for n in ast.walk(fn) if isinstance(n, ast.While)]:
-            has_sub = any(isinstance(c, ast.Call) and isinstance(c.func, ast.Attribute) and c.func.attr == "sub" for c in ast.walk(loop))
-            if not has_sub:
-                continue
-            exits = [n for n in ast.walk(loop) if isinstance(n, (ast.Break, ast.Return))]
-            # every exit must sit under an `if <a> == <b>` (before/after comparison); an unconditional `while True`
-            guarded = True
-            for ex in exits:
-                parent_if = [i for i in ast.walk(loop) if isinstance(i, ast.If) and any(x is ex for x in ast.walk(i))]
-                if not any(isinstance(i.test, ast.Compare) and isinstance(i.test.ops[0], ast.Eq) for i in parent_if):
-                    guarded = False
-            is_forever = isinstance(loop.test, ast.Constant) and loop.test.value is True
-            cmp_test = isinstance(loop.test, ast.Compare) and isinstance(loop.test.ops[0], (ast.NotEq, ast.IsNot))
-            if (is_forever and exits and guarded) or cmp_test:
-                ok = True
+        ok = fixpoint_loop(fns[0])
         ob.conditions = ob.queries = ob.paths = 1
         if ok:
             ob.verdict = C.DISCHARGED
